@@ -595,7 +595,7 @@ class C03(Spec):
     level_text = ('Partial. Proved over the model: escape_confined (replaceSpecialChars output contains no raw <, >, and every & starts an '
                   'entity), C03_guards (in every non-zero mode -specials is refused, raw [html-attributes] are ignored, definition elements '
                   'are skipped -- facts recomputed from the generated guards), C03_policy (the HTML filter returns nothing, the replacement '
-                  'or escaped text for policies 1,2,3). Also C03_definitions_fixed (frame theorem: a document rendered in a non-zero mode cannot change any definition), C03_blocks_escape_or_filter (table fact), C03_plain_text_escaped (paragraph text over the plain alphabet renders to exactly its escape). The full Forest theorem for render is not proved; the output grammar is checked by the '
+                  'or escaped text for policies 1,2,3). Also C03_definitions_fixed (frame theorem: a document rendered in a non-zero mode cannot change any definition), C03_blocks_escape_or_filter (table fact), C03_plain_text_escaped (paragraph text over the plain alphabet renders to exactly its escape). C03_inline_tag_confined (an inline tag in text over letters, digits, blank, full stop and comma, under the drop and escape policies: no raw angle bracket reaches the output, for text of any length). The full Forest theorem for render is not proved; the output grammar is checked by the '
                   'tokeniser oracle on the implementation and the model is compared on full HTML at the 12 policy modes.')
     rule = ('token-soup and attribute/URL-injection documents x 12 policy modes x replacement sentinel; output tokenised with the '
             'strict grammar of DESIGN appendix B; non-trivial = output contains a tag other than <p>')
